@@ -104,7 +104,12 @@ def run(ctx):
         "requests sent on pReq and the live goroutines with their ctx.Err are compared with the Lean model. "
         "part (ii) `tr*`: scripted services (failure kind, failure time, exit latency, Done-then-linger) under the real supervisor.New "
         "with the race detector; the observed enter/signal/exit trace must be accepted by the model (search over hidden processor steps) "
-        "and the Spec clauses are evaluated on the trace itself. evaluations = operations/events replayed; distinct_nontrivial = cases "
+        "and the Spec clauses are evaluated on the trace itself. Besides the fixed, random and cancel-inside-the-back-off-window scenarios "
+        "every seed runs the `completed-*` family: trees whose ROOT and/or inner runnables only set things up (start groups, signal "
+        "Healthy + Done, return nil) while the services below keep running, the supervisor context being cancelled after settling, a few "
+        "ms after the completed node returned, with a child in its back-off or a child subtree still exiting (driver stats "
+        "trace_stop_with_completed_root / trace_stop_live_below_completed); `service-live-after-stop` = an instance that entered has "
+        "not returned when the trace ends, more than (longest exit latency + 1 s) after the cancellation. evaluations = operations/events replayed; distinct_nontrivial = cases "
         "(sequences / traces) on which model and implementation agreed throughout and the Spec held.")
     ctx.cov["trusted_base"] += [
         "harness/supervisor/*_verif_test.go (generators, canonical dump, event log) and Whv/Driver/Supervisor.lean (comparison, acceptance search)",
